@@ -139,6 +139,27 @@ fn explore(u: &[Request], depth: usize, cap: usize, states_total: &mut usize, pa
     }
 }
 
+// third universe: the fields of ONE cluster (an AddCluster is an upsert: the diff relies on it replacing every field),
+// health checks set inline and by SetHealthCheck / RemoveHealthCheck, a backend whose ranking fields change
+fn universe_cluster_fields() -> Vec<Request> {
+    use sozu_command_lib::proto::command::{HealthCheckConfig, SetHealthCheck};
+    let hc = |uri: &str| HealthCheckConfig { uri: uri.into(), interval: 10, timeout: 5, healthy_threshold: 2, unhealthy_threshold: 3, expected_status: 200 };
+    let a0 = SocketAddress::new_v4(10, 0, 0, 1, 1001);
+    let a1 = SocketAddress::new_v4(10, 0, 0, 1, 1002);
+    vec![
+        RequestType::AddCluster(Cluster { cluster_id: "c1".into(), ..Default::default() }).into(),
+        RequestType::AddCluster(Cluster { cluster_id: "c1".into(), sticky_session: true, ..Default::default() }).into(),
+        RequestType::AddCluster(Cluster { cluster_id: "c1".into(), health_check: Some(hc("/health")), ..Default::default() }).into(),
+        RequestType::AddCluster(Cluster { cluster_id: "c1".into(), health_check: Some(hc("/ready")), https_redirect: true, ..Default::default() }).into(),
+        RequestType::SetHealthCheck(SetHealthCheck { cluster_id: "c1".into(), config: hc("/set") }).into(),
+        RequestType::RemoveHealthCheck("c1".into()).into(),
+        RequestType::RemoveCluster("c1".into()).into(),
+        RequestType::AddBackend(AddBackend { cluster_id: "c1".into(), backend_id: "b1".into(), address: a0, sticky_id: Some("a".into()), ..Default::default() }).into(),
+        RequestType::AddBackend(AddBackend { cluster_id: "c1".into(), backend_id: "b1".into(), address: a1, sticky_id: Some("m".into()), ..Default::default() }).into(),
+        RequestType::AddBackend(AddBackend { cluster_id: "c1".into(), backend_id: "b1".into(), address: a0, sticky_id: Some("z".into()), ..Default::default() }).into(),
+    ]
+}
+
 fn main() {
     let a: Vec<String> = std::env::args().collect();
     let thorough = a.get(1).map(|s| s == "thorough").unwrap_or(false);
@@ -151,7 +172,8 @@ fn main() {
     let mut shapes: HashSet<String> = HashSet::new();
     explore(&u, depth, cap, &mut states, &mut pairs, &mut nontrivial, &mut failures, &mut shapes);
     explore(&u2, depth + 2, cap, &mut states, &mut pairs, &mut nontrivial, &mut failures, &mut shapes);
+    explore(&universe_cluster_fields(), 3, cap, &mut states, &mut pairs, &mut nontrivial, &mut failures, &mut shapes);
     let fjson: Vec<String> = failures.iter().map(|(i, o)| format!("{{\"input\": {i:?}, \"observed\": {o:?}}}")).collect();
-    println!("{{\"bound\": \"two universes, each explored breadth-first and capped at {cap} distinct states: (1) states reachable by <= {depth} dispatched requests over {} request templates (2 clusters, 2 backend ids x {} addresses, 3 http frontends, 2 listeners); (2) states reachable by <= {} requests over {} templates (HTTP + HTTPS listener, 2 clusters, frontends sharing a route key and differing only in cluster or tags)\", \"states\": {states}, \"pairs\": {pairs}, \"nontrivial_pairs\": {nontrivial}, \"failures\": [{}]}}",
+    println!("{{\"bound\": \"three universes (the third: the fields of one cluster, health checks, backend upserts; <= 3 requests), each explored breadth-first and capped at {cap} distinct states: (1) states reachable by <= {depth} dispatched requests over {} request templates (2 clusters, 2 backend ids x {} addresses, 3 http frontends, 2 listeners); (2) states reachable by <= {} requests over {} templates (HTTP + HTTPS listener, 2 clusters, frontends sharing a route key and differing only in cluster or tags)\", \"states\": {states}, \"pairs\": {pairs}, \"nontrivial_pairs\": {nontrivial}, \"failures\": [{}]}}",
              u.len(), if thorough { 3 } else { 2 }, depth + 2, u2.len(), fjson.join(", "));
 }
